@@ -564,9 +564,11 @@ fn main() {
                 if (i as u64) % m != k { continue; }
                 let mut rng = Rng::new(seed ^ hash(name));
                 out.run("ship", text);
-                mutants(&mut out, text, &mut rng, nm, all && text.len() < 3000);
-                prefixes(&mut out, text, &mut rng, np);
-                for _ in 0..nm / 4 { let d = damage(text, &mut rng); out.run("dmg", &d); }
+                // the model side costs O(length * tokens): fewer cases for the long files (at least a handful each)
+                let scale = |n: u64| -> u64 { if text.len() <= 1500 { n } else { (n * 1500 / text.len() as u64).max(6) } };
+                mutants(&mut out, text, &mut rng, scale(nm), all && text.len() < 1500);
+                prefixes(&mut out, text, &mut rng, scale(np));
+                for _ in 0..scale(nm / 4) { let d = damage(text, &mut rng); out.run("dmg", &d); }
             }
         }
         "rnd" => { let mut rng = Rng::new(arg_u64(2, 1)); garbage(&mut out, &mut rng, arg_u64(3, 1000)); }
